@@ -1,5 +1,87 @@
 import Ptn.C10.Model
-/-! Line-protocol handler for the C10 model (core Lean only). -/
+/-! Line-protocol handler for the C10 model (core Lean only).
+
+Tokens: a rational is `n` or `n/d` (d > 0); a tolerance is a rational, `-inf` or `inf`;
+`max_bond_dim` is an integer, `inf`, or `float` (any float other than +inf); booleans are `0`/`1`.
+
+  valid <D> <rel> <tot>                                  → ok | TypeError | ValueError:<field>
+  value <tot> <rel> <s…>                                 → kept values, comma separated (`-` if none)
+  sumidx <tot> <norming> <s…>                            → the truncation index
+  trunc <D> <rel> <tot> <renorm> <sum> <sumrenorm> <s…>  → `<kept>;<discarded>` (kept may be `nan*k`),
+                                                           `empty` for the ValueError on an empty vector,
+                                                           or the validation error of the parameters
+-/
 namespace Ptn.C10
-def handle (args : List String) : String := "bad-op"
+
+def parseRat (t : String) : Option Rat :=
+  match t.splitOn "/" with
+  | [a] => a.toInt?.map fun z => (z : Rat)
+  | [a, b] =>
+    match a.toInt?, b.toNat? with
+    | some z, some d => if d = 0 then none else some (mkRat z d)
+    | _, _ => none
+  | _ => none
+
+def parseTol (t : String) : Option Tol :=
+  if t = "-inf" then some .ninf
+  else if t = "inf" then some .pinf
+  else (parseRat t).map .fin
+
+def parseBond (t : String) : Option BondArg :=
+  if t = "inf" then some .inf
+  else if t = "float" then some .otherFloat
+  else t.toInt?.map .int
+
+def parseBool (t : String) : Option Bool :=
+  if t = "0" then some false else if t = "1" then some true else none
+
+def parseRats (ts : List String) : Option (List Rat) := ts.mapM parseRat
+
+def showRat (q : Rat) : String :=
+  if q.den = 1 then toString q.num else s!"{q.num}/{q.den}"
+
+def showRats (l : List Rat) : String :=
+  if l.isEmpty then "-" else ",".intercalate (l.map showRat)
+
+def showValidation : Validation → String
+  | .ok => "ok"
+  | .typeError => "TypeError"
+  | .valueError f => s!"ValueError:{f}"
+
+def showKept : Kept → String
+  | .vals l => showRats l
+  | .nans n => s!"nan*{n}"
+
+def handle (args : List String) : String :=
+  match args with
+  | ["valid", d, rel, tot] =>
+    match parseBond d, parseTol rel, parseTol tot with
+    | some b, some r, some t => showValidation (checkParams b r t)
+    | _, _, _ => "bad-op"
+  | "value" :: tot :: rel :: ss =>
+    match parseTol tot, parseTol rel, parseRats ss with
+    | some t, some r, some s => if s.isEmpty then "bad-op" else showRats (valueTruncation s t r)
+    | _, _, _ => "bad-op"
+  | "sumidx" :: tot :: norming :: ss =>
+    match parseTol tot, parseBool norming, parseRats ss with
+    | some t, some n, some s => toString (sumTruncIndex s t n)
+    | _, _, _ => "bad-op"
+  | "trunc" :: d :: rel :: tot :: renorm :: sm :: smr :: ss =>
+    match parseBond d, parseTol rel, parseTol tot, parseBool renorm, parseBool sm, parseBool smr,
+        parseRats ss with
+    | some b, some r, some t, some rn, some sumT, some sumR, some s =>
+      match checkParams b r t with
+      | .ok =>
+        let mb : Option Nat := match b with
+          | .int z => some z.toNat
+          | _ => none
+        let p : Params := { maxBond := mb, relTol := r, totalTol := t, renorm := rn,
+                            sumTrunc := sumT, sumRenorm := sumR }
+        match truncate s p with
+        | none => "empty"
+        | some (kept, disc) => s!"{showKept kept};{showRats disc}"
+      | v => showValidation v
+    | _, _, _, _, _, _, _ => "bad-op"
+  | _ => "bad-op"
+
 end Ptn.C10
